@@ -6,6 +6,8 @@ import (
 	"go/ast"
 	"go/parser"
 	"go/token"
+	"os"
+	"path/filepath"
 	"reflect"
 	"sort"
 	"strconv"
@@ -33,6 +35,8 @@ type c18Case struct {
 	Blacklist []string `json:"blacklist"` // flag values as given on the command line (may hold several names each)
 	Allow     []string `json:"allow"`
 	Format    string   `json:"format"` // config / code / default
+	// OutFile: write the profile with -out to a file that an earlier, longer profile of the same binary was written to.
+	OutFile bool `json:"out_file,omitempty"`
 }
 
 func drawC18(t *rapid.T) c18Case {
@@ -115,6 +119,7 @@ func drawC18(t *rapid.T) c18Case {
 		}
 		return flags
 	}
+	c.OutFile = rapid.IntRange(0, 4).Draw(t, "outFile") == 0
 	c.Blacklist = build("b", true)
 	for _, v := range c.Blacklist {
 		for _, n := range splitFlag(v) {
@@ -215,14 +220,40 @@ func checkC18(raw json.RawMessage) (ev.Result, error) {
 	for _, v := range c.Allow {
 		args = append(args, "-allow", v)
 	}
-	run, err := rig.run("ok", false, args...)
-	if err != nil {
-		return ev.Result{}, ev.Inconclusivef("%v", err)
+	res := ev.Result{Classes: []string{"format:" + c.Format, "binary:" + c.GOARCH}}
+	var run *profRun
+	if c.OutFile {
+		// first a longer profile (many always-allowed names) into the file, then the one under test into the same file
+		outPath := filepath.Join(rig.dir, "profile.out")
+		first := []string{}
+		if c.Format != "default" {
+			first = append(first, "-format", c.Format)
+		}
+		first = append(first, "-allow", strings.Join(gen.Subset(gen.Universe(archName), c.ListSeed, 40), ","), "-out", outPath)
+		if r0, err := rig.run("ok", false, first...); err != nil || r0.exit != 0 {
+			return ev.Result{}, ev.Inconclusivef("first -out run failed: %v", err)
+		}
+		r1, err := rig.run("ok", false, append(append([]string{}, args...), "-out", outPath)...)
+		if err != nil {
+			return ev.Result{}, ev.Inconclusivef("%v", err)
+		}
+		b, rerr := os.ReadFile(outPath)
+		if rerr != nil {
+			return ev.Result{}, ev.Inconclusivef("%v", rerr)
+		}
+		r1.stdout = string(b)
+		run = r1
+		res.Classes = append(res.Classes, "out-file-rewritten")
+	} else {
+		var err error
+		run, err = rig.run("ok", false, args...)
+		if err != nil {
+			return ev.Result{}, ev.Inconclusivef("%v", err)
+		}
 	}
 	if run.exit != 0 || run.signaled {
 		return ev.Result{}, fmt.Errorf("profiler failed (exit %d) for flags %v: %s", run.exit, args, clip(run.stderr, 500))
 	}
-	res := ev.Result{Classes: []string{"format:" + c.Format, "binary:" + c.GOARCH}}
 	var got []string
 	var loaded *seccomp.Policy
 	if c.Format == "config" {
